@@ -1,5 +1,13 @@
 /* Contract stubs for the bignum groups. */
 #include "bn.h"
+/* callee precondition "the argument is a heap bignum": an obligation of the caller; under
+ * VERIF_KINDFOLD it also ends symbolic execution of dispatch arms that are infeasible for the
+ * instance's operand kinds (the arm's first callee is entered with a non-object) */
+#ifdef VERIF_KINDFOLD
+#define BN_REQUIRE_OBJ(a, who) do { if (!verif_registered(a)) { __CPROVER_assert(0, "callee.precondition: " who " is only called on heap bignums"); __CPROVER_assume(0); } } while (0)
+#else
+#define BN_REQUIRE_OBJ(a, who) do { } while (0)
+#endif
 /* alloc_plain: a fresh zeroed object of exactly the requested size */
 sexp sexp_alloc_tagged_aux(sexp ctx, size_t size, sexp_uint_t tag) {
   sexp r = (sexp) bn_alloc(size);
@@ -12,6 +20,7 @@ sexp sexp_type_exception (sexp ctx, sexp self, sexp_uint_t type_id, sexp x) { re
 /* contract of sexp_bignum_hi (proved in group `hi`): index+1 of the highest non-zero word, at least 1.
  * For the operands of the instance the significant length is a shape constant: assert it, return it. */
 sexp_uint_t sexp_bignum_hi (sexp a) {
+  BN_REQUIRE_OBJ(a, "sexp_bignum_hi");
   sexp_uint_t i = sexp_bignum_length(a) - 1;
   while ((i > 0) && ! sexp_bignum_data(a)[i]) i--;
   for (int k = 0; k < bn_nknown; k++)
@@ -27,6 +36,7 @@ sexp_uint_t sexp_bignum_hi (sexp a) {
  * exactly this in group copy_bignum): reuse dst when it is long enough, else a fresh object of
  * len words; sign copied; the first min(length(a), len) words copied, the rest zero. */
 sexp sexp_copy_bignum (sexp ctx, sexp dst, sexp a, sexp_uint_t len0) {
+  BN_REQUIRE_OBJ(a, "sexp_copy_bignum");
   sexp_uint_t len = (len0 > 0) ? len0 : sexp_bignum_length(a), n, k;
   if (! dst || sexp_bignum_length(dst) < len) {
     dst = sexp_alloc_tagged_aux(ctx, sexp_sizeof(bignum) + len*sizeof(sexp_uint_t), SEXP_BIGNUM);
@@ -79,6 +89,7 @@ static void bn_store(sexp x, uwide m) {
     sexp_bignum_data(x)[k] = (unsigned long)(m >> (64 * k));
 }
 sexp sexp_bignum_fxadd (sexp ctx, sexp a, sexp_uint_t b) {
+  BN_REQUIRE_OBJ(a, "sexp_bignum_fxadd");
   uwide m = bn_mag(a) + b;
   unsigned long len = sexp_bignum_length(a);
   if ((m >> (64 * len)) != 0) {
@@ -91,9 +102,13 @@ sexp sexp_bignum_fxadd (sexp ctx, sexp a, sexp_uint_t b) {
   return a;
 }
 sexp sexp_bignum_fxsub (sexp ctx, sexp a, sexp_uint_t b) {
+  BN_REQUIRE_OBJ(a, "sexp_bignum_fxsub");
   swide v = (swide)bn_mag(a) - (swide)b;
   if (v < 0) { sexp_bignum_sign(a) = -sexp_bignum_sign(a); v = -v; }
   bn_store(a, (uwide)v);
   return a;
 }
+#endif
+#ifdef STUB_sexp_bignum_bit_op
+sexp sexp_bignum_bit_op (sexp ctx, sexp x, sexp y, int op) { __CPROVER_assert(0, "dispatch.fixnum_only: two fixnum operands never reach the bignum arm"); __CPROVER_assume(0); return x; }
 #endif
